@@ -280,8 +280,15 @@ def write_raw_file(mon,log_file='paramlog.py',**kwds):
   if ids is not None:
     f.write('id = %s\n' % ids)
  #f.write('# %s\n' % energy[-1])
-  f.write('params = %s\n' % steps)
-  f.write('cost = %s\n' % energy)
+  try: # numpy>=2 prints scalars as 'np.float64(1.0)', which can't be read
+    import numpy
+    numeric = numpy.printoptions(legacy='1.25')
+  except Exception:
+    from contextlib import nullcontext as numeric
+    numeric = numeric()
+  with numeric:
+    f.write('params = %s\n' % steps)
+    f.write('cost = %s\n' % energy)
   f.close()
   return
 
